@@ -143,7 +143,11 @@ func (p *Player) TEIGetMove(ctx context.Context, pos *tak.Position, tc *TimeCont
 	}
 	goCmd := []string{"go"}
 	if deadline, ok := ctx.Deadline(); ok {
-		goCmd = append(goCmd, "movetime", formatTime(deadline.Sub(time.Now())))
+		remaining := deadline.Sub(time.Now())
+		if remaining < time.Millisecond {
+			return tak.Move{}, errors.New("Timeout too short")
+		}
+		goCmd = append(goCmd, "movetime", formatTime(remaining))
 	}
 	if tc != nil {
 		times := []struct {
